@@ -1,5 +1,6 @@
 SPECIFICATION MCSpec
-CONSTANTS Role = TRUE
+CONSTANTS
+  ReadMax = 0 Role = TRUE
  PeerBudget = 5
  UserBudget = 5
  Faults = FALSE
